@@ -343,6 +343,10 @@ fn judge_trace<K: Kit>(prop: StepProp, ctx: &Ctx, b: &mut Batch, kit: &K, case: 
                     if !known || tree[0].parent.is_some() {
                         j.viol(StepProp::C15, "goal_tree:root-is-not-a-goal-sample", format!("root {:?}", root), si);
                     }
+                    if !eval.valid(&kit.unflat(root), root) {
+                        j.viol(StepProp::C15, "goal_tree:invalid-root", format!("the root {:?} of the goal-side tree is rejected by the validity checker", root), si);
+                    }
+                    b.count("goal_tree_roots_checked", 1);
                 }
                 for (ni, nd) in tree.iter().enumerate() {
                     let Some(p) = nd.parent else { continue };
